@@ -1174,6 +1174,49 @@ def register(reg):
                                                                          split_depth=4)
     contracts.REPLAYERS['apply_simplify_repl[every argument is rendered]'] = replay
 
+    # the matrix renderer: every node of the body that is not a column / row separator -- comments included -- is handed to
+    # nodelist_to_text (whose own units decide what a comment contributes under keep_comments), in order
+    def setup_matrix(it):
+        l2t = mk_l2t(it)
+        calls = it.ctx.ghost.setdefault('cell_render_calls', [])
+
+        def nodelist_to_text(it2, a, k):
+            lst = a[0] if a else k.get('nodelist')
+            calls.append(list(it2.iter_values(lst)))
+            return it2.fresh_str('cell_text')
+        l2t.fields['nodelist_to_text'] = Builtin('nodelist_to_text', nodelist_to_text)
+        n = it.ctx.choose(4, 'body length')
+        items, seps = [], []
+        for i in range(n):
+            k = it.ctx.choose(4, 'body node %d' % i)
+            ch = mk_child(it, 'body%d' % i)
+            cls = ['LatexSpecialsNode', 'LatexMacroNode', 'LatexCommentNode', 'LatexCharsNode'][k]
+            ch.methods['isNodeType'] = (lambda c: lambda it2, sf, a, kw: a[0].name == c)(cls)
+            if k == 0:
+                ch.attrs['specials_chars'] = '&' if it.ctx.choose(2, 'specials %d is the column separator' % i) == 0 else '~'
+            if k == 1:
+                ch.attrs['macroname'] = '\\' if it.ctx.choose(2, 'macro %d is the row separator' % i) == 0 else 'alpha'
+            is_sep = (k == 0 and ch.attrs['specials_chars'] == '&') or (k == 1 and ch.attrs['macroname'] == '\\')
+            items.append(ch)
+            seps.append(is_sep)
+        it.ctx.ghost['matrix_body'] = (items, seps)
+        env = mknode(it, 'LatexEnvironmentNode', environmentname='pmatrix', nodelist=PyList(items), nodeargd=None, spec=None,
+                     latex_walker=None, pos=0, pos_end=sym_int(it, 'pos_end', lo=0))
+        return {'node': env, 'l2tobj': l2t}
+
+    @reg.spec('every_cell_node_is_rendered')
+    def every_cell_node_is_rendered(it):
+        items, seps = it.ctx.ghost['matrix_body']
+        want = [x for x, sp in zip(items, seps) if not sp]
+        got = [x for lst in it.ctx.ghost.get('cell_render_calls', []) for x in lst]
+        return len(got) == len(want) and all(g is w for g, w in zip(got, want))
+    c_mx = Contract('pylatexenc.latex2text.fmt_matrix_environment_node', setup=setup_matrix, result_type='str',
+                    ensures=[('internal:every-body-node-that-is-not-a-separator-is-rendered-in-order-comments-included',
+                              'every_cell_node_is_rendered()')], modifies=[])
+    c12['fmt_matrix_environment_node[every cell node is rendered]'] = FunctionUnit(
+        c_mx, name='fmt_matrix_environment_node[every cell node is rendered]', split_depth=3)
+    contracts.REPLAYERS['fmt_matrix_environment_node[every cell node is rendered]'] = replay
+
     # a math ENVIRONMENT is subject to the math_mode policy exactly like delimiter math: its renderer hands the node to
     # math_node_to_text (whose unit states the policy: 'remove' contributes nothing, 'verbatim' the source, ...) whatever the mode
     def setup_eqenv(it):
